@@ -9,6 +9,9 @@ Next == done = FALSE /\ done' = TRUE
 
 HS == Write(KeyMagic, Sym("s_priv"), Sym("s_pub"), Sym("e_priv"), Sym("e_pub"), Sym("rs"), Sym("payload"))
 
+\* the same writer with a symbolic prologue (noise_encrypt is exported with a prologue argument)
+HSP == Write(Sym("prologue"), Sym("s_priv"), Sym("s_pub"), Sym("e_priv"), Sym("e_pub"), Sym("rs"), Sym("payload"))
+
 RS == ReadSchedule(KeyMagic, Sym("r_priv"), Sym("r_pub"), Sym("e_pub"), Sym("enc_s"), Sym("s_pub"), Sym("enc_p"))
 
 Templates ==
@@ -34,6 +37,8 @@ Templates ==
     rd_k1        |-> RS.k1,  rd_n1 |-> RS.n1,  rd_ad1 |-> RS.ad1,
     rd_k2        |-> RS.k2,  rd_n2 |-> RS.n2,  rd_ad2 |-> RS.ad2,  rd_hh |-> RS.hh,
     rd_file_key  |-> KeyFileKey(Sym("payload"), RS.hh),
+    noise_msg_p  |-> HSP.msg,
+    noise_hh_p   |-> HSP.hh,
     hkdf_noise_1 |-> HkdfOut1(Sym("ck"), Sym("ikm")),
     hkdf_noise_2 |-> HkdfOut2(Sym("ck"), Sym("ikm")) ]
 
